@@ -295,6 +295,15 @@ fn gen_purge_model(rng: &mut Rng) -> Model {
         let i = rng.usize(m.thermostats.len());
         m.thermostats[i].temp_min = Some(yid);
     }
+    // a weekly schedule that lists a daily schedule with 0 repetitions (an editor leaves such entries behind): the
+    // day is referred to, hence reachable whenever the week is
+    if rng.chance(0.3) && !m.schedules.week.is_empty() {
+        let day = bemodel::ScheduleDay { id: uuid(rng), name: "dia sin repeticiones".into(), values: vec![0.5; 24] };
+        let i = rng.usize(m.schedules.week.len());
+        let at = rng.usize(m.schedules.week[i].values.len() + 1);
+        m.schedules.week[i].values.insert(at, (day.id, 0));
+        m.schedules.day.push(day);
+    }
     // tiny but non-zero bridge lengths must survive
     for t in m.thermal_bridges.iter_mut() {
         if rng.chance(0.1) {
@@ -309,7 +318,7 @@ impl Property for C16 {
         "C16"
     }
     fn rule(&self) -> String {
-        "generated models with unused items of every kind, sharing, chains that become removable in one call, spaces that own no wall but are the neighbour of a partition, zero and tiny bridge lengths + real models; the id lists after purge_unused are compared (order included) with the harness's own reachability filter; purge twice = once; broken links after are a subset of those before; A_ref, volumes, K, n50, q_sol;jul equal before/after; non-trivial = distinct model from which the reference removes at least one item".into()
+        "generated models with unused items of every kind, sharing, chains that become removable in one call, spaces that own no wall but are the neighbour of a partition, zero and tiny bridge lengths, weekly schedules listing a day with 0 repetitions + real models; the id lists after purge_unused are compared (order included) with the harness's own reachability filter; purge twice = once; broken links after are a subset of those before; A_ref, volumes, K, n50, q_sol;jul equal before/after; non-trivial = distinct model from which the reference removes at least one item".into()
     }
     fn assumptions(&self) -> Vec<String> {
         vec!["override entries of removed elements are outside the statement and not checked".into()]
